@@ -166,20 +166,35 @@ impl<'a, R, C> Cache<super::Patches<'a, R>, C> {
     }
 
     /// Remove the given `id` from the [`super::Patches`] storage, and
-    /// removing the entry from the `cache`.
+    /// removing the entry from the `cache`, unless the object is still
+    /// referenced by other peers, in which case the entry is refreshed.
     pub fn remove<G>(&mut self, id: &PatchId, signer: &Device<G>) -> Result<(), super::Error>
     where
         G: crypto::signature::Signer<crypto::Signature>,
         R: ReadRepository + SignRepository + cob::Store<Namespace = NodeId>,
-        C: Remove<Patch>,
+        C: Update<Patch> + Remove<Patch>,
     {
         self.store.remove(id, signer)?;
-        self.cache
-            .remove(id)
-            .map_err(|e| super::Error::CacheRemove {
-                id: *id,
-                err: e.into(),
-            })?;
+        // Nb. Only the signer's reference is removed. If other peers hold a
+        // reference to the patch, it still exists in storage.
+        match self.store.get(id)? {
+            Some(patch) => {
+                self.cache
+                    .update(&self.rid(), id, &patch)
+                    .map_err(|e| super::Error::CacheUpdate {
+                        id: *id,
+                        err: e.into(),
+                    })?;
+            }
+            None => {
+                self.cache
+                    .remove(id)
+                    .map_err(|e| super::Error::CacheRemove {
+                        id: *id,
+                        err: e.into(),
+                    })?;
+            }
+        }
         Ok(())
     }
 
